@@ -227,6 +227,20 @@ def run_cell(cell, twin=False):
 def _replay(cell, res, obname, vals, p, tb=None):
     res['replays'] += 1
     cenv, err = _concrete(cell, vals)
+    if err is None and not cenv.failures and not cenv.assume_failed:
+        # z3 models are often degenerate (many zeros); a clause that is violated for every value on
+        # this path also fails on generic inputs.  Any failure demonstrated on the real library is a
+        # real violation, whichever input shows it, so this can only turn a harness error into a
+        # confirmed violation, never create a false alarm.
+        for seed in (1, 2, 3):
+            gen = {k: v for k, v in vals.items() if isinstance(v, str) or (isinstance(v, int) and not isinstance(v, bool))}   # keep option values
+            c2, e2 = _concrete(cell, gen, seed=seed)
+            if c2.assume_failed:
+                continue
+            if e2 is not None or c2.failures:
+                cenv, err = c2, e2
+                vals = dict(c2.used)
+                break
     rec = {'cell': cell.name, 'obligation': obname, 'path': p['decisions'],
            'vals': _vals_json(vals), 'func': cell.func, 'params': cell.params,
            'conc_rtol': cell.conc_rtol, 'domain': cell.domain}
